@@ -244,6 +244,10 @@ func (r *Runtime) bigint_asIntN(call FunctionCall) Value {
 		panic(r.NewTypeError("Invalid value: not (convertible to) a safe integer"))
 	}
 	bigint := toBigInt(call.Argument(1))
+	if bits > maxBigIntBits {
+		// every BigInt this engine can hold fits into that many bits
+		return bigint
+	}
 
 	twoToBits := new(big.Int).Lsh(big.NewInt(1), uint(bits))
 	mod := new(big.Int).Mod((*big.Int)(bigint), twoToBits)
@@ -252,6 +256,41 @@ func (r *Runtime) bigint_asIntN(call FunctionCall) Value {
 	} else {
 		return (*valueBigInt)(mod)
 	}
+}
+
+// maxBigIntBits bounds the size of the result of a single BigInt shift, exponentiation or asUintN:
+// these build a number of a size given by their operand's *value*, so a short script could otherwise
+// ask for an allocation that panics or exhausts memory ("1n << 2n**63n").
+const maxBigIntBits = 1 << 30
+
+// bigIntShift implements x << count (left) or x >> count for BigInts; a negative count shifts the other way.
+func (r *Runtime) bigIntShift(x, count *big.Int, left bool) *valueBigInt {
+	if count.Sign() < 0 {
+		left = !left
+	}
+	tooFar := !count.IsUint64() && !new(big.Int).Neg(count).IsUint64()
+	var n uint64
+	if !tooFar {
+		n = new(big.Int).Abs(count).Uint64()
+		tooFar = n > maxBigIntBits
+	}
+	if left {
+		if x.Sign() == 0 {
+			return (*valueBigInt)(new(big.Int))
+		}
+		if tooFar || uint64(x.BitLen())+n > maxBigIntBits {
+			panic(r.newError(r.getRangeError(), "Maximum BigInt size exceeded"))
+		}
+		return (*valueBigInt)(new(big.Int).Lsh(x, uint(n)))
+	}
+	if tooFar {
+		// everything is shifted out: 0 for a non-negative number, -1 for a negative one
+		if x.Sign() < 0 {
+			return (*valueBigInt)(big.NewInt(-1))
+		}
+		return (*valueBigInt)(new(big.Int))
+	}
+	return (*valueBigInt)(new(big.Int).Rsh(x, uint(n)))
 }
 
 func (r *Runtime) bigint_asUintN(call FunctionCall) Value {
@@ -263,6 +302,12 @@ func (r *Runtime) bigint_asUintN(call FunctionCall) Value {
 		panic(r.NewTypeError("Invalid value: not (convertible to) a safe integer"))
 	}
 	bigint := (*big.Int)(toBigInt(call.Argument(1)))
+	if bits > maxBigIntBits {
+		if bigint.Sign() >= 0 {
+			return (*valueBigInt)(bigint)
+		}
+		panic(r.newError(r.getRangeError(), "Maximum BigInt size exceeded"))
+	}
 	ret := new(big.Int).Mod(bigint, new(big.Int).Lsh(big.NewInt(1), uint(bits)))
 	return (*valueBigInt)(ret)
 }
